@@ -248,9 +248,45 @@ fn none<K>(_: &K) -> Value {
     json!({})
 }
 
+/// keys the library generates itself survive serialisation like any other: export, parse, export again, and (for key pairs) the
+/// public half of the parsed key is the public half of the generated one
+fn generated_keys<B: Backend>(rec: &mut Recorder, thorough: bool) {
+    fn one<B: Backend, K: paseto_core::key::KeyType>(rec: &mut Recorder, kind: &str, gen_key: impl Fn() -> Result<Key<B::V, K>, paseto_core::PasetoError>, public_of: impl Fn(&Key<B::V, K>) -> Vec<u8>)
+    where
+        B::V: paseto_core::key::HasKey<K>,
+    {
+        let r = catch_unwind(AssertUnwindSafe(|| {
+            let k = gen_key().map_err(|e| errc(&e))?;
+            let enc = key_bytes(&k);
+            let back = key_from_bytes::<B::V, K>(&enc).map_err(|e| errc(&e));
+            let text: Result<Key<B::V, K>, _> = k.expose_key().to_string().parse();
+            Ok::<_, String>((enc.clone(), back.as_ref().map(|b| key_bytes(b) == enc).unwrap_or(false), back.as_ref().map(|b| public_of(b) == public_of(&k)).unwrap_or(false),
+                text.map(|t| key_bytes(&t) == enc).unwrap_or(false)))
+        }));
+        let (result, bytes, reparse, same_public, text) = match r {
+            Err(_) => ("panic", vec![], false, false, false),
+            Ok(Err(_)) => ("err", vec![], false, false, false),
+            Ok(Ok((e, a, b, c))) => ("ok", e, a, b, c),
+        };
+        rec.emit(json!({"fn":"keygen","be":B::NAME,"ver":B::VER,"kind":kind,"cls":"library-generated","len":bytes.len(),"bytes":bytes,"ok":result == "ok","result":result,
+            "reparse_equal":reparse,"same_public":same_public,"text_roundtrip":text}));
+    }
+    let n = if thorough { 40 } else { 8 };
+    for _ in 0..n {
+        one::<B, Local>(rec, "local", || LocalKey::<B>::random(), |_| vec![]);
+        if B::VER != 1 {
+            one::<B, Secret>(rec, "secret", || SecretKey::<B>::random(), |k| key_bytes(&k.public_key()));
+        }
+    }
+    if B::VER == 1 {
+        one::<B, Secret>(rec, "secret", || SecretKey::<B>::random(), |k| key_bytes(&k.public_key()));
+    }
+}
+
 pub fn run_backend<B: Backend>(rec: &mut Recorder, thorough: bool, seed: u64) {
     let mut rng = Prng::new(seed, &format!("c08-{}", B::NAME));
     keytext_relations::<B>(rec, &mut rng);
+    generated_keys::<B>(rec, thorough);
     let fam = crate::eval::fam_against(B::NAME);
     let generic = generic_offers(&mut rng, thorough);
     let pairs = keys::signing_pairs::<B>(&mut rng, if thorough { 40 } else { 6 });
